@@ -13,13 +13,17 @@
 (T) code -> spec: those recordings and seeded random histories (wider hyperparameters, 5 calls) are converted to rationals and
     Trace_Optimizers.tla re-validates each call exactly (TLC decides); where a square root is irrational the value is bridged:
     TLC emits the algebraic number and the harness compares floats.
-(S) Rotosolve / Rotoselect: spec/sys/Roto.tla states the objective family  sum_d A s_d + sum B s_d s_e  (s_d = sin(fq x_d + ph), lattice
-    phases in units of pi/16, A odd, B even, every sine in {-1, 0, 1}) in integer arithmetic; a one-parameter restriction is the
-    sinusoid a sin(fq theta + ph) whose exact minima are sin = -sign(a).  RotoGen.tla runs the coordinate sweep one sub-step per TLC
-    transition and TLC checks SubMin (no better value at s_d = -1 / +1 under any generator: the global minimum, F being affine in s_d),
-    Descent, Exact; its histories are replayed through RotosolveOptimizer (analytic branch, frequencies 1 and 2 via nums_frequency /
-    spectra, several arguments, vectors, non-trainable arguments, full_output) and RotoselectOptimizer, and the recorded results are
-    decided by Trace_Roto.tla (minimiser condition mod 2 pi / fq, best generator, cost before the call, sub-step minima).
+(S) Rotosolve / Rotoselect: spec/sys/Roto.tla states the objective family  sum_d A s_d + sum B s_d s_e  (s_d = sin(fq_d x_d + ph)) with a
+    RATIONAL frequency fq_d = fn/fd per parameter (1, integers > 1, non-integers below and above 1: 1/4, 1/3, 1/2, 2/3, 3/4, 5/4, 3/2),
+    lattice phases in units of pi/12, parameter d on the lattice pi/(12 fn), A odd, B a multiple of 4, every sine in {-1, -1/2, 0, 1/2, 1}
+    (start points a multiple of pi/2 or pi/6 off a multiple of pi), in integer arithmetic (doubled sines, 4 F); a one-parameter
+    restriction is the sinusoid a sin(fq theta + ph) whose exact minima are sin = -sign(a).  RotoGen.tla runs the coordinate sweep one
+    sub-step per TLC transition and TLC checks SubMin (no better value at s_d = -1 / +1 under any generator: the global minimum, F being
+    affine in s_d), Descent, Exact; its histories are replayed through RotosolveOptimizer (analytic branch; the frequency handed over as
+    nums_frequency = 1, as nums_frequency taking precedence over a contradicting spectrum, or as a spectrum with one positive frequency
+    spelled [0, f] / [-f, 0, f] / [f] / unsorted / tuple / ndarray; several arguments, vectors, non-trainable arguments, full_output) and
+    RotoselectOptimizer, and the recorded results are decided by Trace_Roto.tla (minimiser condition mod the period 2 pi / fq, best
+    generator, cost before the call, sub-step minima).
 Not covered (partial): the numeric multi-frequency branch of Rotosolve, QNG's metric computed from a QNode, SPSA / QNSPSA / ShotAdaptive /
 Riemannian / adaptive optimizers, torch / jax interfaces and the *QJIT optimizers.
 """
@@ -631,9 +635,15 @@ def build_controls(hists):
 
 
 # ----------------------------------------------------------------------------- Rotosolve / Rotoselect (Roto.tla)
-U = math.pi / 16           # lattice unit
+U = math.pi / 12           # lattice unit of the phases; parameter d lives on the lattice of U / fn[d]  (Roto.tla, "Units")
 ROTO_INV = ["Exact", "SubMin", "Descent", "Posed"]
 ROTO_LAYOUTS = [[(True, 1)], [(True, 2)], [(True, 1), (False, 1), (True, 1)], [(True, 2), (True, 1)], [(False, 1), (True, 2)]]
+K0 = (0, 1, 3, 5, 6, 7, 9, 11)      # initial sine arguments in units of pi/6: the sine is 0, +-1/2, +-1
+# frequencies fn/fd of a Rotosolve parameter (weights by repetition): 1, integers > 1, non-integers below 1, non-integers above 1
+ROTO_FREQS = ((1, 1), (1, 1), (1, 1), (2, 1), (3, 1), (1, 2), (1, 2), (1, 4), (3, 4), (1, 3), (2, 3), (3, 2), (5, 4))
+# how a frequency is handed to Rotosolve: nums_frequency = 1 (unit frequency only), nums_frequency = 1 taking precedence over a
+# contradicting spectrum (documented), or a spectrum with ONE positive frequency in several spellings
+SPEC_VARIANTS = ("pos0", "sym", "only", "unsorted", "tuple", "array")
 
 
 def roto_problem(rng, kind, pid):
@@ -647,18 +657,38 @@ def roto_problem(rng, kind, pid):
     B = [[0] * P for _ in range(P)]
     for d in range(P):
         for e in range(d + 1, P):
-            B[d][e] = B[e][d] = rng.choice((0, 2, -2, 4))
+            B[d][e] = B[e][d] = rng.choice((0, 4, -4, 8))
+    fqs = [rng.choice(ROTO_FREQS) if kind == "rotosolve" else (1, 1) for _ in range(P)]
+    via = ["n/a" if kind != "rotosolve" else rng.choice(("nf", "nf", "nf+sp") + SPEC_VARIANTS[:2]) if f == (1, 1) else rng.choice(SPEC_VARIANTS)
+           for f in fqs]
     return {"id": pid, "kind": kind, "P": P, "tr": tr, "layout": [[t, n] for t, n in layout],
-            "fq": [rng.choice((1, 1, 2)) if kind == "rotosolve" else 1 for _ in range(P)],
+            "fn": [f[0] for f in fqs], "fd": [f[1] for f in fqs], "via": via,
             "A": [[rng.choice((-3, -1, 1, 3, 5)) for _ in range(P)] for _ in range(3)],
-            "ph": [[2 * rng.randrange(16) for _ in range(P)] for _ in range(3)],
+            "ph": [[rng.randrange(24) for _ in range(P)] for _ in range(3)],
             "C0": [[rng.randint(-2, 2) for _ in range(P)] for _ in range(3)],
-            "B": B, "k0": [rng.choice((0, 8, 16, 24)) for _ in range(P)],
+            "B": B, "k0": [rng.choice(K0) for _ in range(P)],
             "g0": [rng.choice((1, 2, 3)) if kind == "rotoselect" else 1 for _ in range(P)]}
 
 
+def roto_freq(pr, d):
+    return pr["fn"][d] / pr["fd"][d]
+
+
+def roto_fq_text(pr):
+    return [f"{n}/{m}" if m != 1 else str(n) for n, m in zip(pr["fn"], pr["fd"])]
+
+
+def roto_spectrum(pr, d):
+    """One positive frequency, spelled in the way pr['via'][d] says (Rotosolve: 'spectra only contains one positive frequency')."""
+    f, via = roto_freq(pr, d), pr["via"][d]
+    if via == "nf+sp":
+        return [0.0, 2.0 * f, 3.0 * f]          # contradicts nums_frequency = 1, which takes precedence
+    return {"pos0": [0, f], "sym": [-f, 0.0, f], "only": [f], "unsorted": [f, 0.0, -f], "tuple": (-f, 0.0, f),
+            "array": np.array([0.0, f])}[via]
+
+
 def roto_F(pr, flat, gens):
-    s = [pnp.sin(pr["fq"][d] * flat[d] + pr["ph"][gens[d] - 1][d] * U) for d in range(pr["P"])]
+    s = [pnp.sin(roto_freq(pr, d) * flat[d] + pr["ph"][gens[d] - 1][d] * U) for d in range(pr["P"])]
     tot = 0.0
     for d in range(pr["P"]):
         tot = tot + pr["A"][gens[d] - 1][d] * s[d] + pr["C0"][gens[d] - 1][d]
@@ -667,29 +697,37 @@ def roto_F(pr, flat, gens):
     return tot
 
 
-def lat(v):
-    k = round(float(v) / U)
-    return k, bool(abs(float(v) - k * U) < 1e-7)
+def lat(v, fn=1):
+    u = U / fn
+    k = round(float(v) / u)
+    return k, bool(abs(float(v) - k * u) < 1e-7)
 
 
 def near_int(v):
-    v = float(v)
+    """4 x value (Roto!F is 4 F) as an integer"""
+    v = 4 * float(v)
     if not math.isfinite(v) or abs(v) > 1e6:
         return 0, False
     return round(v), bool(abs(v - round(v)) < 1e-7)
+
+
+def roto_x0(pr):
+    """Roto!X0: lattice integers, parameter d in units of U / fn[d]"""
+    return [2 * pr["fd"][d] * pr["k0"][d] - pr["fd"][d] * pr["ph"][pr["g0"][d] - 1][d] for d in range(pr["P"])]
 
 
 def roto_execute(job):
     """-> per call [call, x (lattice ints), on-lattice flags, generators, cost, cost ok, ys, ys ok, exception, cost hint]"""
     pr, calls = job
     P = pr["P"]
-    x0 = [(pr["k0"][d] - pr["ph"][pr["g0"][d] - 1][d]) // pr["fq"][d] for d in range(P)]
+    x0 = roto_x0(pr)
+    ux = [U / pr["fn"][d] for d in range(P)]
     out = []
     if pr["kind"] == "rotosolve":
         sizes = [n for _, n in pr["layout"]]
         args, pos = [], 0
         for t, n in pr["layout"]:
-            vals = [x0[pos + j] * U for j in range(n)]
+            vals = [x0[pos + j] * ux[pos + j] for j in range(n)]
             args.append(pnp.array(vals[0] if n == 1 and pr["id"] % 3 else vals, requires_grad=bool(t)))     # size 1: scalar or shape (1,)
             pos += n
         shapes = [np.shape(a) for a in args]
@@ -703,10 +741,10 @@ def roto_execute(job):
         for i, (t, n) in enumerate(pr["layout"]):
             for j in range(n):
                 idx = () if shapes[i] == () else (j,)
-                if pr["fq"][pos] == 1:
+                if pr["via"][pos] in ("nf", "nf+sp"):
                     nf.setdefault(names[i], {})[idx] = 1
-                else:
-                    sp.setdefault(names[i], {})[idx] = [0, pr["fq"][pos]]
+                if pr["via"][pos] != "nf":
+                    sp.setdefault(names[i], {})[idx] = roto_spectrum(pr, pos)
                 pos += 1
         opt = qp.RotosolveOptimizer()
         for k in calls:
@@ -722,7 +760,7 @@ def roto_execute(job):
                 new = [new] if len(args) == 1 else list(new)
                 if len(new) != len(args) or any(np.shape(a) != sh for a, sh in zip(new, shapes)):
                     raise ValueError("shape of the returned arguments")
-                ll = [lat(z) for a in new for z in np.reshape(np.asarray(a, dtype=float), (-1,))]
+                ll = [lat(z, pr["fn"][d]) for d, z in enumerate(z for a in new for z in np.reshape(np.asarray(a, dtype=float), (-1,)))]
                 rec[1], rec[2] = [z[0] for z in ll], [z[1] for z in ll]
                 args = new
             except Exception as e:  # noqa: BLE001
@@ -733,7 +771,7 @@ def roto_execute(job):
         return out
     opt = qp.RotoselectOptimizer(possible_generators=[1, 2, 3])
     fn = lambda x, generators=None: roto_F(pr, x, generators)        # noqa: E731
-    x, gens = [v * U for v in x0], list(pr["g0"])
+    x, gens = [v * U for v in x0], list(pr["g0"])          # Rotoselect: frequency 1, fn = 1
     for k in calls:
         rec = [k, [], [], [], 0, True, [], True, "", False]
         try:
@@ -775,7 +813,7 @@ def roto_compare(pr, exp, obs):
             if not pr["tr"][d]:
                 if ob[1][d] != ex_x[d]:
                     return ("frozen", l), costbad, drift
-            elif (pr["fq"][d] * (ob[1][d] - ex_x[d])) % 32 != 0:
+            elif (ob[1][d] - ex_x[d]) % (24 * pr["fd"][d]) != 0:            # one period = 24 fd lattice units
                 return ("not-a-minimum", l), costbad, drift
             elif ob[1][d] != ex_x[d]:
                 drift = True
@@ -788,7 +826,7 @@ def rotosolve_part(tier, seed):
     rng = random.Random(seed + 61)
     n_solve, n_select, steps = (160, 90, 2) if tier == "quick" else (800, 400, 3)
     probs = [roto_problem(rng, "rotosolve" if i < n_solve else "rotoselect", i) for i in range(n_solve + n_select)]
-    tprobs = [{k: v for k, v in p.items() if k != "layout"} for p in probs]
+    tprobs = [{k: v for k, v in p.items() if k not in ("layout", "via")} for p in probs]
     g = lib.run_tlc_mc("RotoGen", {"Problems": tla_set(tprobs)}, lib.workdir(PID, "rotogen"), constants={"MaxSteps": steps},
                        invariants=ROTO_INV, constraints=["Emit"], timeout=3000)
     if g.invariant_violated:
@@ -807,15 +845,30 @@ def rotosolve_part(tier, seed):
         viol[key][1] += 1
     # (R)
     rdrift = ties = 0
+    fclass = {"1": 0, "integer>1": 0, "non-integer<1": 0, "non-integer>1": 0}
+    via_count = {}
+    far = half_start = 0
     for (pr, h), obs in zip(hists, obs_all):
+        if pr["kind"] == "rotosolve":        # vacuity counters over the model's own (TLC-emitted) sub-steps
+            prev = roto_x0(pr)
+            for l, c in enumerate(h):
+                for d in range(pr["P"]):
+                    if not pr["tr"][d]:
+                        continue
+                    fn, fd = pr["fn"][d], pr["fd"][d]
+                    fclass["1" if fn == fd else "integer>1" if fd == 1 else "non-integer<1" if fn < fd else "non-integer>1"] += 1
+                    via_count[pr["via"][d]] = via_count.get(pr["via"][d], 0) + 1
+                    far += abs(c[1][d] - prev[d]) > 12 * fn              # the minimiser lies further than pi from the old value
+                    half_start += l == 0 and pr["k0"][d] % 3 != 0         # the sub-step starts where the sine is +-1/2
+                prev = c[1]
         bad, costbad, dr = roto_compare(pr, h, obs)
         rdrift += dr
         ties += any(c[5] for c in h)
         for b in (bad, costbad):
             if b:
-                add(f"{pr['kind']}:{b[0]}", f"{pr['kind']} call {b[1] + 1} ({h[b[1]][0]}): {b[0]}; returned x (units of pi/16) {obs[b[1]][1]}, "
-                    f"generators {obs[b[1]][3]}, cost {obs[b[1]][4]}; Roto.tla expects x = {h[b[1]][1]} (mod 32/fq), generators {h[b[1]][2]}, "
-                    f"cost before the call {h[b[1]][3]}, sub-step minima {h[b[1]][4]}", pr, [c[0] for c in h], obs)
+                add(f"{pr['kind']}:{b[0]}", f"{pr['kind']} call {b[1] + 1} ({h[b[1]][0]}): {b[0]}; frequencies {roto_fq_text(pr)} given as {pr['via']}; returned x (units of pi/(12 fn)) {obs[b[1]][1]}, "
+                    f"generators {obs[b[1]][3]}, 4*cost {obs[b[1]][4]}; Roto.tla expects x = {h[b[1]][1]} (mod 24 fd = one period), generators {h[b[1]][2]}, "
+                    f"4*cost before the call {h[b[1]][3]}, 4*sub-step minima {h[b[1]][4]}", pr, [c[0] for c in h], obs)
     # comparator controls (independent of the implementation)
     neg_cmp = 0
     for pr, h in hists[::max(1, len(hists) // 20)]:
@@ -826,7 +879,7 @@ def rotosolve_part(tier, seed):
             raise lib.MachineryError("Roto comparator rejected the spec's own expectations")
         hh = json.loads(json.dumps(h))
         d = pr["tr"].index(True)
-        hh[0][1][d] += 16 // pr["fq"][d]      # the maximum instead of the minimum
+        hh[0][1][d] += 12 * pr["fd"][d]      # half a period away: the maximum instead of the minimum
         if roto_compare(pr, hh, synth)[0] is None:
             raise lib.MachineryError("Roto comparator accepted a corrupted expectation")
         neg_cmp += 1
@@ -855,7 +908,7 @@ def rotosolve_part(tier, seed):
             t = json.loads(json.dumps(base))
             ob = t[L]
             if clause == "not-a-minimum":
-                ob[1][d] += 8 if pr["fq"][d] == 1 else 4            # a quarter period away from the minimum
+                ob[1][d] += 6 * pr["fd"][d]            # a quarter period away from the minimum
             elif clause == "frozen":
                 if all(pr["tr"]):
                     continue
@@ -896,25 +949,31 @@ def rotosolve_part(tier, seed):
         calls_ok += nval
         tdrift += dr == "drift"
         if clause != "ok":
-            add(f"{pr['kind']}:{clause}", f"{pr['kind']} call {vstep} ({calls[vstep - 1]}): clause {clause} of Trace_Roto fails; returned x (units of "
-                f"pi/16) {obs[vstep - 1][1]} on-lattice {obs[vstep - 1][2]} generators {obs[vstep - 1][3]} {obs[vstep - 1][8]}", pr, calls, obs)
+            add(f"{pr['kind']}:{clause}", f"{pr['kind']} call {vstep} ({calls[vstep - 1]}): clause {clause} of Trace_Roto fails; frequencies {roto_fq_text(pr)} given as "
+                f"{pr['via']}; returned x (units of pi/(12 fn)) {obs[vstep - 1][1]} on-lattice {obs[vstep - 1][2]} generators {obs[vstep - 1][3]} {obs[vstep - 1][8]}", pr, calls, obs)
         if cclause != "ok":
-            add(f"{pr['kind']}:{cclause}", f"{pr['kind']} call {cstep}: step_and_cost returned {obs[cstep - 1][4]} (integer: {obs[cstep - 1][5]}), "
+            add(f"{pr['kind']}:{cclause}", f"{pr['kind']} call {cstep}: step_and_cost returned {obs[cstep - 1][4]}/4 (on the quarter-integer grid: {obs[cstep - 1][5]}), "
                 f"which is not the objective before the call ({cclause})", pr, calls, obs)
         if nval >= 2 and any(any(row) for row in pr["B"]):
             nontriv.add(pr["id"])
             if len(samples) < 2 and not any(s["kind"] == pr["kind"] for s in samples):
-                samples.append({"kind": pr["kind"], "problem": {k: pr[k] for k in ("P", "tr", "fq", "A", "ph", "B", "k0", "g0")}, "calls": calls,
-                                "returned_x_units_of_pi_over_16": [o[1] for o in obs], "generators": [o[3] for o in obs]})
+                samples.append({"kind": pr["kind"], "problem": {k: pr[k] for k in ("P", "tr", "fn", "fd", "via", "A", "ph", "B", "k0", "g0")}, "calls": calls,
+                                "returned_x_units_of_pi_over_12fn": [o[1] for o in obs], "generators": [o[3] for o in obs]})
     if neg_ok < 5 or pos_ok < 2 or neg_cmp < 1:
         raise lib.MachineryError(f"too few Roto controls: {neg_ok} negative, {pos_ok} positive, {neg_cmp} comparator")
     if calls_ok < 100:
         raise lib.MachineryError("vacuous Roto run")
+    if min(fclass.values()) < 20 or far < 10 or half_start < 20 or len(via_count) < 2 + len(SPEC_VARIANTS):
+        raise lib.MachineryError(f"vacuous Roto run: sub-steps per frequency class {fclass}, {far} further than pi, {half_start} from a "
+                                 f"half-sine start, frequency spellings {via_count}")
     cov = {"states": g.distinct + r.distinct, "transitions": g.generated + r.generated, "problems": len(probs), "histories": len(hists),
            "calls_validated": calls_ok, "coupled_problems_validated": len(nontriv), "histories_with_generator_ties": ties,
            "model_drift": {"replay_histories": rdrift, "trace_histories": tdrift,
                            "what": "representative of theta mod 2 pi/fq, choice among equally good generators"},
            "model": {"module": "Roto / RotoGen", "invariants": ROTO_INV, "states": g.distinct, "max_steps": steps},
+           "rotosolve_substeps_per_frequency_class": fclass, "rotosolve_substeps_minimiser_further_than_pi_away": far,
+           "rotosolve_substeps_starting_at_sine_one_half": half_start, "rotosolve_substeps_per_frequency_spelling": via_count,
+           "frequencies": sorted({f"{n}/{m}" for n, m in ROTO_FREQS}),
            "negative_controls_rejected": neg_ok + neg_cmp, "positive_controls_accepted": pos_ok, "samples": samples}
     return cov, [v for v, _ in viol.values()], {k: n for k, (_, n) in viol.items()}
 
